@@ -8,7 +8,7 @@ from __future__ import annotations
 from typing import Any, Dict, List, Optional, Tuple
 
 from .absint import App, Builtin, ClassRef, ExcVal, FuncRef, Hooks, Interp, ModRef, Obj, Raised, Sym, vkey, vrepr
-from .model import Repo
+from .model import AnalysisError, Repo
 
 G = 'pytezos.operation.group.OperationGroup'
 CTX = 'pytezos.context.impl.ExecutionContext'
@@ -58,8 +58,9 @@ def lin_repr(t: Any) -> str:
 
 
 class GroupHooks(Hooks):
-    def __init__(self, repo: Repo, inline_fees: bool = False, post_may_fail: bool = False):
+    def __init__(self, repo: Repo, inline_fees: bool = False, post_may_fail: bool = False, simulation_fails: bool = False):
         self.repo = repo
+        self.simulation_fails = simulation_fails
         self.inline_fees = inline_fees
         self.post_may_fail = post_may_fail
         self.epoch = 0
@@ -135,6 +136,12 @@ class GroupHooks(Hooks):
                 return {}
             if q == f'{G}.run':
                 it.event('simulate')
+                if self.simulation_fails:
+                    from .absint import ExcVal, Raised
+                    kind, ecls = self.repo.lookup(self.repo.resolve_name(callee.fi.module, 'RpcError'))  # the error class the group module itself names
+                    if kind != 'class':
+                        raise AnalysisError('the RPC error class is not visible from the operation group module: idiom not modelled')
+                    raise Raised(ExcVal(ecls.qualname, ('run_operation failed',), origin='the node'))
                 # the simulation echoes the filled contents with metadata
                 me = callee.self_val
                 return {'contents': [dict(c, metadata=Sym(f'meta{i}')) for i, c in enumerate(me.fields['contents'])]}
